@@ -339,3 +339,76 @@ def checks(tier):
                bounds="blob of 0,1,3 symbolic bytes, channel 1..3", outside="blobs > 65515 bytes (needs opaque ropes)",
                tiers=q),
     ]
+
+
+# ---------------------------------------------------------------------------------------------
+# (b,c) frame-size limits: lengths are solver-forked choices around the constants of the format
+LARGE_PACKET_MAX = 65520
+_b19 = checks
+
+
+def h_pkt_line_limit(eng):
+    """pkt_line(data) for payload lengths around the limits: the frame is 4 hex digits + payload and at most 65520
+    bytes long, and parses back — or the call refuses"""
+    n = [0, 1, 65515, 65516, 65517, 65519, 65520, 65531, 65532, 70000][eng.choice("len_case", 10)]
+    data = b"x" * n
+    try:
+        frame = PR.pkt_line(data)
+    except (ValueError, GitProtocolError):
+        eng.prove(n > LARGE_PACKET_MAX - 4, "only payloads that do not fit one frame are refused")
+        return
+    eng.prove(len(frame) == n + 4, "frame is a 4-byte prefix plus the payload")
+    eng.prove(len(frame) <= LARGE_PACKET_MAX, f"frame of {len(frame)} bytes exceeds the pkt-line maximum of {LARGE_PACKET_MAX}")
+    eng.prove(PR._parse_pkt_line_length(frame[:4]) == len(frame), "prefix parses back to the frame length")
+
+
+def h_sideband_limit(eng):
+    """write_sideband splits blobs around the 65515-byte boundary into frames of at most 65520 bytes whose payloads
+    concatenate to the blob"""
+    n = [65514, 65515, 65516, 65517, 131029, 131030, 131031, 196546][eng.choice("len_case", 8)]
+    blob = bytes((i * 7) & 0xFF for i in range(n))
+    written = []
+    proto = PR.Protocol(lambda k: b"", written.append)
+    proto.write_sideband(2, blob)
+    proto._close = None
+    stream = b"".join(written)
+    pos = 0
+    out = []
+    while pos < len(stream):
+        ln = PR._parse_pkt_line_length(stream[pos:pos + 4])
+        eng.prove(4 < ln <= LARGE_PACKET_MAX, f"side-band frame of {ln} bytes (blob of {n} bytes) exceeds the pkt-line maximum")
+        eng.prove(stream[pos + 4] == 2, "channel byte first")
+        out.append(stream[pos + 5:pos + ln])
+        pos += ln
+    eng.prove(b"".join(out) == blob, "payloads concatenate to the blob")
+
+
+def h_buffered_writer_default(eng):
+    """BufferedPktLineWriter with its default buffer: data flushed == frames written, for payload lengths around the buffer size"""
+    out = []
+    w = PR.BufferedPktLineWriter(out.append)
+    lines = []
+    for i in range(3):
+        n = [0, 1, 65510, 65511, 65512, 30000][eng.choice(f"len{i}", 6)]
+        d = bytes([65 + i]) * n
+        w.write(d)
+        lines.append(PR.pkt_line(d))
+    w.flush()
+    eng.prove(b"".join(out) == b"".join(lines), "flushed data == concatenated frames")
+
+
+def checks(tier):
+    q = ("quick", "thorough")
+    enc = "dulwich.protocol."
+    return _b19(tier) + [
+        KCheck("C19b.pkt_line_limit", h_pkt_line_limit, encoded=[enc + "pkt_line", enc + "_parse_pkt_line_length"],
+               bounds="payload lengths {0,1,65515,65516,65517,65519,65520,65531,65532,70000} (solver-forked choice around the "
+                      "constants 65520 and 65535-4; the payload content is irrelevant to the code)",
+               outside="other lengths (a symbolic length needs opaque ropes, not built)", tiers=q),
+        KCheck("C19c.sideband_limit", h_sideband_limit, encoded=[enc + "Protocol.write_sideband", enc + "Protocol.write_pkt_line", enc + "pkt_line"],
+               bounds="blob lengths {65514..65517, 131029..131031, 196546} (around 1x, 2x, 3x the 65515-byte side-band payload)",
+               outside="other lengths", tiers=q),
+        KCheck("C19e.buffered_writer_default", h_buffered_writer_default, encoded=[enc + "BufferedPktLineWriter"],
+               bounds="3 writes, each of length 0, 1, 30000, 65510, 65511 or 65512 (around the default 65515-byte buffer)",
+               outside="other lengths", tiers=q),
+    ]
